@@ -495,6 +495,17 @@ theorem nonNull_map (p : Nat) (kt vt : CqlTy) (kvs : List (GoVal × GoVal)) : No
   simp only [marshal, Bool.false_eq_true, if_false]
   exact wrapSeq_pairs_not_null p _ kvs kt vt
 
+/-- the distinct-keys hypothesis as a computation (`==` on `GoVal` is the structural `GoVal.beqV`) -/
+def keysDistinctB : List (GoVal × GoVal) → Bool
+  | [] => true
+  | kv :: r => r.all (fun kv' => !(kv.1 == kv'.1)) && keysDistinctB r
+
+theorem keysDistinct_of_B : ∀ kvs : List (GoVal × GoVal), keysDistinctB kvs = true → KeysDistinct kvs
+  | [], _ => trivial
+  | kv :: r, h => by
+    simp only [keysDistinctB, Bool.and_eq_true, List.all_eq_true, Bool.not_eq_eq_eq_not, Bool.not_true] at h
+    exact ⟨fun kv' hkv' => h.1 kv' hkv', keysDistinct_of_B r h.2⟩
+
 /-! ## tuples bound to / decoded into a struct -/
 
 /-- the encoding is short enough for a 4-byte signed length -/
